@@ -156,6 +156,10 @@ def main():
     tier = sys.argv[1] if len(sys.argv) > 1 else "quick"
     run = Run(PID, tier)
     f = eqs()
+    from harness import cas as _cas
+    for _f in f.values():       # every estimator function once by position and by its documented argument names
+        if isinstance(_f, ca.Function):
+            _cas.named_selfcheck(_f)
     if "--replay" in sys.argv:
         d = json.load(open(sys.argv[sys.argv.index("--replay") + 1]))
         replay(run, f, d["data"]["tv"])
